@@ -7,6 +7,7 @@ import (
 	"runtime"
 	"sync/atomic"
 
+	"github.com/iotaledger/hive.go/runtime/syncutils"
 	"github.com/iotaledger/hive.go/runtime/workerpool"
 	"verif/harness/internal/gdump"
 )
@@ -42,13 +43,15 @@ type grTask struct {
 }
 
 type groupResult struct {
-	Cfg      groupCfg  `json:"cfg"`
-	Tree     string    `json:"tree"`
-	Steps    []string  `json:"steps"`
-	Findings []finding `json:"-"`
-	Checks   int       `json:"checks"`
-	Parked   int       `json:"parked_observations"`
-	Returned int       `json:"returned_observations"`
+	Cfg       groupCfg  `json:"cfg"`
+	Tree      string    `json:"tree"`
+	Steps     []string  `json:"steps"`
+	Findings  []finding `json:"-"`
+	Checks    int       `json:"checks"`
+	Parked    int       `json:"parked_observations"`
+	Returned  int       `json:"returned_observations"`
+	ObsSubs   int       `json:"observer_subscribes"`
+	ObsUnsubs int       `json:"observer_unsubscribes"`
 }
 
 func (n *gnode) under(m *gnode) bool {
@@ -191,6 +194,38 @@ func runGroup(cfg groupCfg) (res groupResult) {
 		}
 	}
 
+	// third-party observers subscribe to / unsubscribe from the exported counters at seeded points
+	type observer struct {
+		unsub func()
+		calls *atomic.Int64
+	}
+	var obsv []observer
+	subscribeTo := func(c *syncutils.Counter) {
+		n := new(atomic.Int64)
+		obsv = append(obsv, observer{c.Subscribe(func(o, nw int) { n.Add(1) }), n})
+		res.ObsSubs++
+	}
+	churn := func() {
+		switch rng.Intn(4) {
+		case 0:
+			subscribeTo(pools[rng.Intn(len(pools))].pool.PendingTasksCounter)
+		case 1:
+			subscribeTo(nodes[rng.Intn(len(nodes))].g.PendingChildrenCounter)
+		case 2:
+			if len(obsv) > 0 {
+				i := rng.Intn(len(obsv))
+				obsv[i].unsub()
+				obsv = append(obsv[:i], obsv[i+1:]...)
+				res.ObsUnsubs++
+			}
+		}
+	}
+	// always: one observer that comes and goes before any task
+	subscribeTo(pools[rng.Intn(len(pools))].pool.PendingTasksCounter)
+	churn()
+	obsv[0].unsub()
+	obsv = obsv[1:]
+	res.ObsUnsubs++
 	check("all pools idle")
 	rounds := 1 + rng.Intn(2)
 	for r := 0; r < rounds; r++ {
@@ -207,11 +242,13 @@ func runGroup(cfg groupCfg) (res groupResult) {
 				tasks = append(tasks, t.child)
 				batch = append(batch, t.child)
 			}
+			churn()
 			pools[t.pool].pool.Submit(body(t))
 			t.submitted.Store(true)
 			check(fmt.Sprintf("round %d: task submitted to %s", r, pools[t.pool].name))
 		}
 		for _, i := range rng.Perm(len(batch)) {
+			churn()
 			close(batch[i].gate)
 			check(fmt.Sprintf("round %d: gate of a task in %s opened", r, pools[batch[i].pool].name))
 		}
@@ -506,11 +543,36 @@ func runGroupConcurrent(cfg groupCfg) (res groupResult) {
 			}
 		}
 	}
+	var unsubs []func()
+	churn := func() {
+		switch rng.Intn(4) {
+		case 0:
+			unsubs = append(unsubs, pools[rng.Intn(nP)].pool.Load().PendingTasksCounter.Subscribe(func(o, n int) {}))
+			res.ObsSubs++
+		case 1:
+			unsubs = append(unsubs, groupOf(rng.Intn(nG+1)-1).PendingChildrenCounter.Subscribe(func(o, n int) {}))
+			res.ObsSubs++
+		case 2:
+			if len(unsubs) > 0 {
+				i := rng.Intn(len(unsubs))
+				unsubs[i]()
+				unsubs = append(unsubs[:i], unsubs[i+1:]...)
+				res.ObsUnsubs++
+			}
+		}
+	}
+	unsubs = append(unsubs, pools[rng.Intn(nP)].pool.Load().PendingTasksCounter.Subscribe(func(o, n int) {}))
+	res.ObsSubs++
+	churn()
+	unsubs[0]()
+	unsubs = unsubs[1:]
+	res.ObsUnsubs++
 	check("after concurrent creation and submission")
 	for _, i := range rng.Perm(nP) {
 		if len(res.Findings) > 0 {
 			break
 		}
+		churn()
 		close(pools[i].task.gate)
 		check(fmt.Sprintf("gate of the task in %s opened", pools[i].name))
 	}
